@@ -339,6 +339,10 @@ SCEN["context"] = {
     "to_string": [
         ("ok", "X({'a': 1, 'b': {'c': 3}})", None),
         ("set", "X({'a': {1, 2}})", "LenaValueError"),
+        # values of the standard library's number types, which other subpackages work with
+        ("decimal", "X({'sum': __import__('decimal').Decimal('1.5'), 'a': {'b': [1]}})",
+         "LenaValueError"),
+        ("fraction", "X({'f': __import__('fractions').Fraction(1, 2)})", "LenaValueError"),
     ],
     "update_nested": [
         ("ok", "(lambda c: (X('variable', c, {'name': 'n'}), c)[1])({'variable': {'name': 'x'}})",
@@ -557,6 +561,9 @@ SCEN["flow"] = {
         ("run", "list(X('events').run(iter([1, 2, 3])))", None),
         ("format", "list(X(format='{index}/{total}').run(iter([1])))", None),
         ("empty", "list(X().run(iter([])))", None),
+        ("long", "list(X('events').run(iter(range(150))))", None),
+        ("long-format", "len(list(X(format='{index}/{total} {percent}').run(iter(range(1001)))))",
+         None),
     ],
     "StoreFilled": [
         ("group", "L.fc(X(), [1, 2])", None),
